@@ -15,7 +15,7 @@ TECHNIQUE = 'property-based testing (Hypothesis), metamorphic: paired run_mappin
 RULE = ('cases = generated mapping inputs x relation a-e; factor 1 for (a),(b) (tolerance + near-tie skip), any factor for the bitwise relations (c),(d); '
         'non-trivial = the transformation is not the identity and touches at least one marker gene column position (a,b,c: always when >=1 marker column moves / values change; d: genes added or removed; e: always); distinct = distinct spec hash')
 ASSUMPTIONS = ['raw counts are integer valued so that row sums are exact in any column order',
-               'scale factors are positive integers or powers of two times small integers, applied in float64']
+               'scale factors range from 1e-12 to 1e9 (so that cell totals far below 1 and far above 1e6 occur), applied in float64']
 
 
 def budget(tier):
@@ -32,7 +32,7 @@ def strategy_(draw):
     g = len(spec['query']['genes'])
     t = {'rel': rel}
     if rel == 'scale':
-        t['factors'] = draw(st.lists(st.sampled_from([1, 2, 3, 7, 10, 1000, 0.5, 0.25, 1.5, 12.75]), min_size=n, max_size=n))
+        t['factors'] = draw(st.lists(st.sampled_from([1, 2, 3, 7, 10, 1000, 0.5, 0.25, 1.5, 12.75, 1e-3, 1e-5, 1e-8, 1e-12, 1e6, 1e9]), min_size=n, max_size=n))
     elif rel == 'permute_genes':
         t['perm'] = list(draw(st.permutations(list(range(g)))))
     elif rel == 'extra_genes':
